@@ -94,6 +94,9 @@ func Assert(c bool, label string) {
 	}
 }
 
+// Fork returns c; the executor forks here instead of merging the two sides.
+func Fork(c bool) bool { return c }
+
 func Cover(label string)     { covers[label]++ }
 func Policy(k int)           {}
 func Unwind(n int)           {}
